@@ -42,6 +42,11 @@ def cases(tier):
             for up, ur in ((0, 0), (1, 0), (0, 1), (1, 1)):
                 if tier == "quick" and k == K and (up, ur) in ((1, 0), (0, 1)):
                     continue
+                if dm in ("IOU", "DSC"):
+                    # the threshold range is split so that a counterexample in the upper part is realisable with moderately sized instances
+                    for part in ("lo", "hi"):
+                        out.append({"name": "pipe_dm%s_k%d_up%d_ur%d_thr%s" % (dm, k, up, ur, part), "what": "pipe", "dm": dm, "k": k, "up": up, "ur": ur, "thr_part": part})
+                    continue
                 out.append({"name": "pipe_dm%s_k%d_up%d_ur%d" % (dm, k, up, ur), "what": "pipe", "dm": dm, "k": k, "up": up, "ur": ur})
     # the same pipeline reached through Panoptica_Evaluator with class groups: a single-instance group evaluated BEFORE a multi-instance group
     # (unmatched input, matcher threshold 0, decision threshold free): the multi-instance group's bookkeeping must still apply the decision threshold
@@ -163,6 +168,10 @@ def _run_pipe(case, T, MM):
         base += [iou > 0, iou <= 1, dsc >= iou, dsc <= 2 * iou, dsc <= 1, vals["ASSD"][i] >= 0, vals["RVD"][i] > -1]
     if dm in ("IOU", "DSC"):
         base.append(thr <= 1)
+        if case.get("thr_part") == "lo":
+            base.append(thr < z3.Q(1, 8))
+        elif case.get("thr_part") == "hi":
+            base.append(thr >= z3.Q(1, 8))
     # concrete tiny matched pair: labels 1..k on both sides, then unmatched prediction label k+1 / reference label k+2
     ref = list(range(1, k + 1)) + ([0] if up else []) + ([k + 2] if ur else []) + [0]
     pred = list(range(1, k + 1)) + ([k + 1] if up else []) + ([0] if ur else []) + [0]
@@ -231,7 +240,24 @@ def _run_pipe(case, T, MM):
             r2, _ = ENG.check(z3.Not(c), want_model=False)
             status.append(True if r2 == "unsat" else (False if r1 == "unsat" else None))
         if any(s is None for s in status):
-            h.fail("decision_is_decided_per_instance", detail="the result does not depend on whether an instance meets the decision threshold")
+            # the path did not decide whether instance i meets the threshold: what it did with the instance must then be right for BOTH outcomes
+            try:
+                kept = [x.t if isinstance(x, SNum) else None for x in res.get_list_metric(getattr(Metric, dm), MM.MetricMode.ALL)]
+            except EngineSignal:
+                raise
+            except Exception:
+                kept = None
+            if kept is None:
+                h.fail("decision_is_decided_per_instance", detail="the result does not depend on whether an instance meets the decision threshold")
+                return
+            import os as _os
+            if _os.environ.get("VERIF_TRACE"):
+                print("KEPT", [(type(x).__name__, x) for x in res.get_list_metric(getattr(Metric, dm), MM.MetricMode.ALL)], res.tp, flush=True)
+            for i in range(k):
+                if status[i] is None:
+                    counted = any(t is not None and (t.eq(vals[dm][i]) or ENG.check(t != vals[dm][i], want_model=False)[0] == "unsat") for t in kept)
+                    h.ok("failed_decision_is_not_tp", passing[i] if counted else z3.Not(passing[i]),
+                         detail={"instance": i + 1, "counted_as_tp": counted, "note": "the path never compared this score with the threshold"})
             return
         exp_tp = sum(1 for s in status if s)
         lists = {m: [vals[m][i] for i in range(k) if status[i]] for m in METRICS}
@@ -307,8 +333,48 @@ def _realise_pipe(case):
             v = frac(case["vals"]["ASSD"][i])
             s.add(D[i] >= 0, D[i] <= 6)
             s.add((D[i] * DEN < kk) if v < thr else ((D[i] * DEN == kk) if v == thr else (D[i] * DEN > kk)))
-    if str(s.check()) != "sat":
-        return None
+    near = False
+    if dm in ("IOU", "DSC"):
+        from fractions import Fraction as Fr0
+        near = any(frac(case["vals"][dm][i]) != thr and abs(frac(case["vals"][dm][i]) - thr) <= Fr0(1e-8) + Fr0(1e-5) * abs(thr) for i in range(k))
+    if near or str(s.check()) != "sat":
+        if dm not in ("IOU", "DSC"):
+            return None
+        # second attempt for scores that sit within a floating-point tolerance of the threshold: large instances (up to 2^21 voxels), threshold k/1024
+        # nearest to the abstract one, and for every instance the same order relation to the threshold AND the same verdict of numpy's isclose formula
+        from fractions import Fraction as Fr
+        kq = min(1023, max(1, round(thr * 1024)))
+        s = z3.Solver()
+        s.set("timeout", 60000)
+        BIG = 1 << 21
+        for i in range(k):
+            v = frac(case["vals"][dm][i])
+            s.add(I[i] >= 1, Rr[i] >= I[i], Pp[i] >= I[i], Rr[i] <= BIG, Pp[i] <= BIG)
+            num, den = (I[i], Rr[i] + Pp[i] - I[i]) if dm == "IOU" else (2 * I[i], Rr[i] + Pp[i])
+            s.add((num * 1024 < kq * den) if v < thr else ((num * 1024 == kq * den) if v == thr else (num * 1024 > kq * den)))
+            diff = num * 1024 - kq * den
+            absd = z3.If(diff >= 0, diff, -diff)
+            close_ = abs(v - thr) <= Fr(1e-8) + Fr(1e-5) * abs(thr)      # numpy.isclose defaults, as the floats they are
+            coef = Fr(1e-8) * 1024 + Fr(1e-5) * kq                       # |num/den - kq/1024| <= atol + rtol*kq/1024, times den*1024
+            lim = z3.RealVal(coef) * z3.ToReal(den)
+            s.add((z3.ToReal(absd) <= lim) if close_ else (z3.ToReal(absd) > lim))
+        if str(s.check()) != "sat":
+            return None
+        m = s.model()
+        g = lambda x: m.eval(x, True).as_long()
+        ref, pred = [], []
+        for i in range(k):
+            lab = i + 1
+            ii, rr, pp = g(I[i]), g(Rr[i]), g(Pp[i])
+            ref += [lab] * ii + [lab] * (rr - ii) + [0] * (pp - ii) + [0]
+            pred += [lab] * ii + [0] * (rr - ii) + [lab] * (pp - ii) + [0]
+        if case["up"]:
+            ref += [0, 0]
+            pred += [k + 1, 0]
+        if case["ur"]:
+            ref += [k + 2, 0]
+            pred += [0, 0]
+        return {"pred": pred, "ref": ref, "thr": kq / 1024}
     m = s.model()
     g = lambda x: m.eval(x, True).as_long()
     ref, pred = [], []
